@@ -286,6 +286,8 @@ class Gen:
                 ci += 1
             out.append(d)
         out.extend(calls[ci:])
+        if r.random() < 0.5:
+            out = diversify(out, r)
         return out
 
 
@@ -293,6 +295,68 @@ def fix_nary(stmts):
     """Flatten accidental directly nested n-ary nodes?  No: nested same-operator nodes are
     legal trees (they print with parentheses).  Only degenerate arities are repaired."""
     return stmts
+
+
+NAME_POOL = ['SUB', 'OPT', 'FIRST', 'SECOND', 'OUTER', 'INNER', 'TARGET', 'HOST', 'Q', 'ZZ', 'MODE', 'LVL', 'WHEN',
+             'KIND', 'ITEM', 'NODE', 'KEY', 'VALUE', 'X1', 'X2', 'a', 'b', 'opt', 'sub-cmd', 'my_arg', 'M', 'N', 'R9']
+
+
+def diversify(stmts, r):
+    """Meaning-preserving disorder: definitions get names from a large pool (map order of names must not matter),
+    some references go through one or two extra forwarding definitions, and some definitions are referenced once more."""
+    from .gast import map_expr
+    defined = []
+    for st in stmts:
+        if st[0] == 'def' and st[1] not in defined:
+            defined.append(st[1])
+    taken = set()
+    for st in stmts:
+        e = st[2] if st[0] == 'call' else st[3]
+        for x in walk(e):
+            if x[0] == 'nt':
+                taken.add(x[1])
+    taken |= set(defined)
+    pool = [n for n in NAME_POOL if n not in taken]
+    r.shuffle(pool)
+    rename = {}
+    for nm in defined:
+        if nm in ('PATH', 'DIRECTORY', '_'):
+            continue
+        if pool and r.random() < 0.6:
+            rename[nm] = pool.pop()
+
+    def ren(e):
+        if e[0] == 'nt' and e[1] in rename:
+            return ('nt', rename[e[1]])
+        return e
+    out = []
+    for st in stmts:
+        if st[0] == 'call':
+            out.append(('call', st[1], map_expr(ren, st[2])))
+        else:
+            out.append(('def', rename.get(st[1], st[1]), st[2], map_expr(ren, st[3])))
+    # forwarding definitions for some references to plain definitions
+    plain = [st[1] for st in out if st[0] == 'def' and st[2] is None]
+    fw = {}
+    extra = []
+    for nm in plain:
+        if pool and r.random() < 0.25:
+            f1 = pool.pop()
+            extra.append(('def', f1, None, ('nt', nm)))
+            fw[nm] = f1
+            if pool and r.random() < 0.4:
+                f2 = pool.pop()
+                extra.append(('def', f2, None, ('nt', f1)))
+                fw[nm] = f2
+    if fw:
+        def forward(e):
+            if e[0] == 'nt' and e[1] in fw and r.random() < 0.6:
+                return ('nt', fw[e[1]])
+            return e
+        out = [('call', st[1], map_expr(forward, st[2])) if st[0] == 'call' else st for st in out]
+        for d in extra:
+            out.insert(r.randint(0, len(out)), d)
+    return out
 
 
 def used_names(stmts):
